@@ -699,6 +699,8 @@ package vuego
 //@   ensures C05.shorthand.rewrite: err == nil && node.Data == "template" && len(node.Attr) == old(len(node.Attr)) + 1 &&
 //@     node.Attr[len(node.Attr) - 1].Key == "include" && node.Attr[len(node.Attr) - 1].Val == filename &&
 //@     forall i int :: 0 <= i && i < old(len(node.Attr)) ==> node.Attr[i] == old(node.Attr[i])
+//@ func (v *Vue) resolveComponentTags(nodes) (err)
+//@   modifies everyField("html.Node", "Data"), everyField("html.Node", "Attr")
 //@ func (v *Vue) processComponentNode(node) (err)
 //@   modifies everyField("html.Node", "Data"), everyField("html.Node", "Attr")
 //@   ensures C05.shorthand.every.element: old(node.Type == html.ElementNode && (node.Data in v.componentMap)) ==>
@@ -714,6 +716,7 @@ package vuego
 //@   assert C05.component.scope: len(ctx.stack.stack) == old(len(ctx.stack.stack)) + 1 at "v.evalTemplate(ctx, compDom, ctx.stack.EnvMap(), depth+1)"
 //@   assert C01.include.eval.once: !(len(compDom) > 0 && compDom[0].Type == html.ElementNode && compDom[0].Data == "template") || (len(processedDom) > 0 && processedDom[0] == compDom[0]) at "call evaluate"
 //@   assert C16.ids.by.file: $arg0 == name at "call assignOnceIDs"
+//@   assert C05.shorthand.in.component: $arg0 == compDom at "call resolveComponentTags"
 //@   ensures C05.noleak: BALANCED(ctx)
 //@   loop 0 invariant C05.balance.loop: len(ctx.stack.stack) == old(len(ctx.stack.stack)) + 1 && (forall bi int :: 0 <= bi && bi < old(len(ctx.stack.stack)) ==> ctx.stack.stack[bi] == old(ctx.stack.stack[bi])) && (vars != nil ==> ctx.stack.stack[len(ctx.stack.stack) - 1] == vars)
 //@   loop 1 invariant C05.balance.loop: len(ctx.stack.stack) == old(len(ctx.stack.stack)) + 1 && (forall bi int :: 0 <= bi && bi < old(len(ctx.stack.stack)) ==> ctx.stack.stack[bi] == old(ctx.stack.stack[bi])) && (vars != nil ==> ctx.stack.stack[len(ctx.stack.stack) - 1] == vars)
